@@ -1090,7 +1090,7 @@ func anyRunFailed(ix *Index, refs []Ref) (bool, int) {
 	return false, 0
 }
 
-func CheckC07(rr *RunResult, res *vprop.Result) (lateContFail bool) {
+func CheckC07(rr *RunResult, res *vprop.Result) (lateContFail bool, heldRerun bool) {
 	sc := rr.Sc
 	if sc.HasOverrun() {
 		return
@@ -1128,6 +1128,49 @@ func CheckC07(rr *RunResult, res *vprop.Result) (lateContFail bool) {
 				}
 				if status(fp.Blocks[bi].State) != workflow.Failed {
 					res.Fail("C07/block-cont-failure-lost", "plan p%d block b%d: run %d of a continuous check failed but the block ended %v: %s\n%s", pi, bi, k, status(fp.Blocks[bi].State), Describe(fp), FormatEvents(rr.Events, 60))
+					return
+				}
+			}
+		}
+		// "While a plan or block executes, each of its continuous checks keeps being re-run": liveness; the one bounded
+		// form that is sound under back-pressure (the result channel has a buffer of one and is polled only at sequence
+		// launches): when the harness itself held a sequence action of the scope for LongHold (250 ms, >= 100x the
+		// check's delay), the check must have run at least three times in total — its initial (gating) run, the loop's
+		// first run (its result fits the channel buffer) and a second loop run (which may then block on the full
+		// channel, legitimately) — i.e. it was re-run at least once after the loop's first result.
+		for _, inv := range ix.All {
+			if inv.Ref.Plan != pi || !inv.Ref.IsSeq() || inv.Exit < 0 {
+				continue
+			}
+			if sc.Spec(inv.Ref).StepOf(inv.N).Gate < LongHoldGate || time.Duration(inv.ExitAt-inv.EnterAt) < LongHold*8/10 {
+				continue
+			}
+			for _, scope := range []int{-1, inv.Ref.Block} {
+				refs := sc.GroupRefs(pi, scope, 2)
+				if len(refs) == 0 {
+					continue
+				}
+				var cs *ChecksSpec
+				if scope < 0 {
+					cs = ps.Cont
+				} else {
+					cs = ps.Blocks[scope].Cont
+				}
+				if cs.Delay == 3 { // 1 h
+					continue
+				}
+				heldRerun = true
+				runs := ix.Invs(refs[0])
+				if failed, _ := anyRunFailed(ix, refs); failed {
+					continue // the loop legitimately stops at the first failed run
+				}
+				if len(runs) < 3 {
+					name := fmt.Sprintf("plan p%d", pi)
+					if scope >= 0 {
+						name = fmt.Sprintf("plan p%d block b%d", pi, scope)
+					}
+					res.Fail("C07/cont-not-rerun", "%s: sequence action %s was held for %v while the scope executed, but continuous check %s ran only %d time(s)\n%s",
+						name, inv.Tag, time.Duration(inv.ExitAt-inv.EnterAt), refs[0].Tag(), len(runs), FormatEvents(rr.Events, 40))
 					return
 				}
 			}
